@@ -25,7 +25,7 @@ From Coq.Strings Require Import Byte.
 From LMScan Require Import ScanModel ScanConcrete.
 From LMStripe Require NetModel.
 From LME2E Require Import E2EBridgeEncode E2EPipeline E2EProofs.
-From LME2E Require Import E2EStatBridge E2EStatRevcomp E2EStatChain E2EStatProofs E2EStatScan E2EStatFloat E2EStatFloatScan E2EStatIo.
+From LME2E Require Import E2EStatBridge E2EStatRevcomp E2EStatChain E2EStatProofs E2EStatScan E2EStatMeme E2EStatFloat E2EStatFloatScan E2EStatWild E2EStatWildScan E2EStatIo.
 Import ListNotations.
 Local Open Scope nat_scope.
 
@@ -202,21 +202,21 @@ Qed.
 (* Setting of both theorems: an exact scoring matrix [sm] (finite symbol cells), background [bg]
    without wildcard mass, T = exact tail over C01's score_def; a text [sq] without wildcard; the
    binary32 scanner's hit list H as E2E.e2e_text_to_hits characterises it ((i, x) in H  <->  position
-   i valid, its binary32 score sd32 i >= thr, x = sd32 i).  PARTIAL: the link between binary32 and
-   exact arithmetic is taken as two hypotheses,
+   i valid, its binary32 score sd32 i >= thr, x = sd32 i).  ABSTRACT LINK (hence the names _link): the relation
+   between binary32 and exact arithmetic is taken as two hypotheses about any value map [val],
      L1  sd32 i >= thr in binary32  <->  tq <= val (sd32 i)      (order embedding; true for finite floats
                                                                    with val = the float's rational value)
      L2  | val (sd32 i) - exact score of the window at i | <= eps  (summation error; C01_fsum_error_bound
                                                                    gives it over the reals)
-   what is missing is their transport from Flocq's reals to Q.  [window M i sq] = the M symbols at i. *)
+   Both are DISCHARGED for val = the rational value of a binary32 number in stat_threshold_scan_meme /
+   stat_threshold_scan_tfm below (E2EStatFloat.v).  [window M i sq] = the M symbols at i. *)
 
 (* MEME threshold t = ScoreDistribution::score(p), 0 < p < 1 (C11 round trip + brackets): every
    accepted position has an exact score s >= t - eps and exact tail T(s + eps + dd) <= p, i.e. its
    tail probability exceeds p by at most the mass of the scores in [s, s + eps + dd).  Every
-   rejected position scores below t + eps.  Also PARTIAL because coq/dist does not prove that
-   score(p) is the LEAST such threshold: nothing is said about how small the tail of a rejected
-   position can be. *)
-Theorem stat_threshold_scan_meme_partial :
+   rejected position scores below t + eps.  (Nothing is said here about how small the tail of a rejected
+   position can be: the minimality of score(p) is stat_meme_score_minimal, used in stat_threshold_scan_meme.) *)
+Theorem stat_threshold_scan_meme_link :
   forall (K : nat) (sm : list (list (option Q))) (bg : list Q) d offset scale p tq
          (sq : list nat) (sd32 : nat -> F32.t) (thr : F32.t) (H : list (nat * F32.t)) (val : F32.t -> Q) (eps : Q),
     2 <= K -> sym_finite K sm -> length bg = K -> (last bg 0 == 0)%Q ->
@@ -251,7 +251,7 @@ Qed.
    (C13, both clauses): accepted positions have T(s + eps + d) <= p; every rejected position scores
    below t + eps, and if it is rejected by more than the margin (s < t - d) its exact tail at slack
    d is at least p: no position whose tail T(s - d) is below p lies more than d under the threshold. *)
-Theorem stat_threshold_scan_tfm_partial :
+Theorem stat_threshold_scan_tfm_link :
   forall (K : nat) (sm : list (list (option Q))) (bg : list Q) perm p steps win it
          (sq : list nat) (sd32 : nat -> F32.t) (thr : F32.t) (H : list (nat * F32.t)) (val : F32.t -> Q) (eps : Q),
     sym_finite K sm -> TP.matrix_ok K (trows sm) bg ->
@@ -279,6 +279,19 @@ Proof.
   exact (tfm_threshold_scan K sm bg HK Hsm Hbg Hlast Hnn sq sd32 thr H Hhits Hsyms val tq eps L1 L2 p d Hc1 Hc2).
 Qed.
 
+(* MINIMALITY of ScoreDistribution::score(p) (exact arithmetic; complements C11_score_pvalue_roundtrip, which
+   gives pvalue(score(p)) <= p): for 0 < p < 1 either score(p) is the start of the table (M * offset) or the
+   exact tail one table step (1/scale) and one discretisation margin (dd) below it is >= p *)
+Theorem stat_meme_score_minimal :
+  forall (m : list (list (DMo.cell Q))) (bg : list Q) d offset scale (p s : Q),
+    DT.bg_nonneg bg -> (DI.Qsum bg <= 1)%Q ->
+    DMo.build DI.QOps m bg = Ok d -> DMo.stage_a DI.QOps m = Ok (offset, scale) ->
+    (Z.of_nat (length m) * 1000 < DMo.i32_max)%Z ->
+    (0 < p)%Q -> (p < 1)%Q -> DMo.d_score DI.QOps d p = Ok s ->
+    let dd := ((inject_Z (Z.of_nat (length m)) / 2 + 1) / scale)%Q in
+    (s == inject_Z (Z.of_nat (length m)) * offset)%Q \/ (p <= DI.tail_exact m bg (s - 1 / scale - dd))%Q.
+Proof. exact score_minimal_tail. Qed.
+
 (* ---------- the same with the link DISCHARGED and the hit list taken from the scanning pipeline ----------
 
    The binary32 scoring matrix [pssm] (what ScoringMatrix holds) is read as a matrix of rationals / -inf
@@ -295,7 +308,11 @@ Qed.
 
    MEME (t = ScoreDistribution::score(p), 0 < p < 1): no panic; every hit is a valid position whose EXACT
    score s is >= t - eps and whose exact tail satisfies T(s + eps + dd) <= p; every valid position that is
-   not a hit has exact score < t + eps   (eps = eps_f32 + eta, dd = (M/2 + 1) / scale). *)
+   not a hit has exact score < t + eps   (eps = eps_f32 + eta, dd = (M/2 + 1) / scale); and the threshold is
+   MINIMAL up to one table step (E2EStatMeme.score_minimal_Q, not in coq/dist): unless t is the very start
+   of the table (t = M * offset), every score u <= t - 1/scale - dd has exact tail T(u) >= p.  So hits have
+   tail <= p and positions scoring more than 1/scale + dd below t have tail >= p: the hit set brackets
+   { positions whose exact tail is <= p } up to the explicit margins. *)
 Theorem stat_threshold_scan_meme :
   forall (A : EM.abc) (C : nat) (p : EI.pipeline) (junk : nat -> EM.sym) (text : list byte)
          (be : SA.backend) (old : SM.sseq) (pssm : list (list F32.t)) (am : arm) (thr : F32.t) (B : nat)
@@ -323,7 +340,9 @@ Theorem stat_threshold_scan_meme :
          exists s, score_c01 K S (window M i sq) = Some s /\ (tq - eps <= s)%Q /\
                    (tail_c01 K S bg (s + eps + dd) <= pv)%Q) /\
       (forall i, i + M <= length sq -> (forall x, ~ In (i, x) H) ->
-         exists s, score_c01 K S (window M i sq) = Some s /\ (s < tq + eps)%Q).
+         exists s, score_c01 K S (window M i sq) = Some s /\ (s < tq + eps)%Q) /\
+      ((tq == inject_Z (Z.of_nat M) * offset)%Q \/
+       forall u, (u <= tq - 1 / scale - dd)%Q -> (pv <= tail_c01 K S bg u)%Q).
 Proof. exact text_threshold_meme. Qed.
 
 (* TFM-PVALUE (t = score of an Iteration of approximate_score(p), 0 < p <= 1, d = (M+2) granularity): the
@@ -361,6 +380,135 @@ Theorem stat_threshold_scan_tfm :
          exists s, score_c01 K S (window M i sq) = Some s /\ (s < tq + eps)%Q /\
                    ((s < tq - d)%Q -> (pv <= tail_c01 K S bg (s - d))%Q)).
 Proof. exact text_threshold_tfm. Qed.
+
+(* TEXTS WITH WILDCARDS (N / X runs, as in real sequences).  For a matrix whose wildcard column is -inf (every
+   matrix built with a background of wildcard frequency 0) a window containing a wildcard scores -inf in binary32
+   (E2EStatWild.dirty_window_ninf: the finite partial sum before it cannot overflow, -inf absorbs the rest) and is
+   never a hit for a finite threshold; the wildcard-free windows are judged exactly as above.  The threshold fact
+   is a hypothesis here, T(tq + dd) <= p: supplied by E2EStatScan.meme_threshold (dd = (M/2+1)/scale) or
+   E2EStatScan.tfm_threshold (dd = (M+2) granularity) as in the two theorems above. *)
+Theorem stat_threshold_scan_wildcards :
+  forall (A : EM.abc) (C : nat) (p : EI.pipeline) (junk : nat -> EM.sym) (text : list byte)
+      (be : SA.backend) (old : SM.sseq) (pssm : list (list F32.t)) (am : arm) (thr : F32.t) (B : nat)
+      (bg : list Q) (pv tq eta dd : Q),
+  A = GA.dna \/ A = GA.protein ->
+  1 <= C -> SA.backend_typed C be = true -> SS.wf_matrix C (SM.mat old) ->
+  Forall (LMEncode.EncodeProofs.in_abc A) text ->
+  1 <= length pssm -> Forall (fun row : list F32.t => length row = EM.a_K A) pssm ->
+  e2e_wc (EM.a_K A) pssm = true -> no_overflow (EM.a_K A) pssm = true -> wild_ninf (EM.a_K A) pssm -> 1 <= B ->
+  F32.is_finite thr = true -> (Qabs (valQ thr - tq) <= eta)%Q ->
+  length bg = EM.a_K A -> (last bg 0 == 0)%Q -> (forall b, In b bg -> (0 <= b)%Q) ->
+  (tail_c01 (EM.a_K A) (qmat pssm) bg (tq + dd) <= pv)%Q ->
+  let K := EM.a_K A in
+  let S := qmat pssm in
+  let M := length pssm in
+  let eps := (eps_f32 K pssm + eta)%Q in
+  exists (sq : list nat) (H : list (nat * F32.t)),
+    encode_nat p A junk text = Ok sq /\ length sq = length text /\
+    e2e_scan A C p junk text be old pssm am thr B = Ok H /\ NoDup (map fst H) /\
+    (forall i x, In (i, x) H ->
+       i + M <= length sq /\ clean K M sq i = true /\
+       exists s, score_c01 K S (window M i sq) = Some s /\ (tq - eps <= s)%Q /\
+                 (tail_c01 K S bg (s + eps + dd) <= pv)%Q) /\
+    (forall i, i + M <= length sq -> (forall x, ~ In (i, x) H) ->
+       clean K M sq i = false \/
+       exists s, score_c01 K S (window M i sq) = Some s /\ (s < tq + eps)%Q).
+Proof. exact text_threshold_wild. Qed.
+
+(* ... instantiated with the MEME-style threshold t = ScoreDistribution::score(p), 0 < p < 1 (stat_threshold_scan_meme
+   for texts with wildcards) *)
+Theorem stat_threshold_scan_meme_wildcards :
+  forall (A : EM.abc) (C : nat) (p : EI.pipeline) (junk : nat -> EM.sym) (text : list byte)
+         (be : SA.backend) (old : SM.sseq) (pssm : list (list F32.t)) (am : arm) (thr : F32.t) (B : nat)
+         (bg : list Q) d offset scale (pv tq eta : Q),
+    A = GA.dna \/ A = GA.protein ->
+    1 <= C -> SA.backend_typed C be = true -> SS.wf_matrix C (SM.mat old) ->
+    Forall (LMEncode.EncodeProofs.in_abc A) text ->
+    1 <= length pssm -> Forall (fun row : list F32.t => length row = EM.a_K A) pssm ->
+    e2e_wc (EM.a_K A) pssm = true -> no_overflow (EM.a_K A) pssm = true -> wild_ninf (EM.a_K A) pssm -> 1 <= B ->
+    F32.is_finite thr = true -> (Qabs (valQ thr - tq) <= eta)%Q ->
+    length bg = EM.a_K A -> (last bg 0 == 0)%Q -> DT.bg_nonneg bg -> (DI.Qsum bg <= 1)%Q ->
+    DMo.build DI.QOps (dmat (qmat pssm)) bg = Ok d -> DMo.stage_a DI.QOps (dmat (qmat pssm)) = Ok (offset, scale) ->
+    (Z.of_nat (length pssm) * 1000 < DMo.i32_max)%Z ->
+    (0 < pv)%Q -> (pv < 1)%Q -> DMo.d_score DI.QOps d pv = Ok tq ->
+    let K := EM.a_K A in
+    let S := qmat pssm in
+    let M := length pssm in
+    let eps := (eps_f32 K pssm + eta)%Q in
+    let dd := ((inject_Z (Z.of_nat M) / 2 + 1) / scale)%Q in
+    exists (sq : list nat) (H : list (nat * F32.t)),
+      encode_nat p A junk text = Ok sq /\ length sq = length text /\
+      e2e_scan A C p junk text be old pssm am thr B = Ok H /\ NoDup (map fst H) /\
+      (forall i x, In (i, x) H ->
+         i + M <= length sq /\ clean K M sq i = true /\
+         exists s, score_c01 K S (window M i sq) = Some s /\ (tq - eps <= s)%Q /\
+                   (tail_c01 K S bg (s + eps + dd) <= pv)%Q) /\
+      (forall i, i + M <= length sq -> (forall x, ~ In (i, x) H) ->
+         clean K M sq i = false \/
+         exists s, score_c01 K S (window M i sq) = Some s /\ (s < tq + eps)%Q).
+Proof. exact text_threshold_meme_wild. Qed.
+
+(* ... and with the TFM-PVALUE threshold (stat_threshold_scan_tfm for texts with wildcards) *)
+Theorem stat_threshold_scan_tfm_wildcards :
+  forall (A : EM.abc) (C : nat) (p : EI.pipeline) (junk : nat -> EM.sym) (text : list byte)
+         (be : SA.backend) (old : SM.sseq) (pssm : list (list F32.t)) (am : arm) (thr : F32.t) (B : nat)
+         (bg : list Q) perm (pv : Q) steps win it (eta : Q),
+    A = GA.dna \/ A = GA.protein ->
+    1 <= C -> SA.backend_typed C be = true -> SS.wf_matrix C (SM.mat old) ->
+    Forall (LMEncode.EncodeProofs.in_abc A) text ->
+    2 <= length pssm -> Forall (fun row : list F32.t => length row = EM.a_K A) pssm ->
+    e2e_wc (EM.a_K A) pssm = true -> no_overflow (EM.a_K A) pssm = true -> wild_ninf (EM.a_K A) pssm -> 1 <= B ->
+    TP.matrix_ok (EM.a_K A) (trows (qmat pssm)) bg ->
+    Permutation perm (seq 0 (length pssm)) -> (0 < pv)%Q -> (pv <= 1)%Q ->
+    TM.score_window0 LMTfm.TfmNum.NumQ (trows (qmat pssm)) perm = Ok win ->
+    In (Ok it) (TM.sc_run LMTfm.TfmNum.NumQ steps (trows (qmat pssm)) perm bg pv (1 # 10) win) ->
+    F32.is_finite thr = true -> (Qabs (valQ thr - TM.io_score it) <= eta)%Q ->
+    let K := EM.a_K A in
+    let S := qmat pssm in
+    let M := length pssm in
+    let tq := TM.io_score it in
+    let eps := (eps_f32 K pssm + eta)%Q in
+    let d := ((inject_Z (Z.of_nat M) + 2) * TM.io_gran it)%Q in
+    exists (sq : list nat) (H : list (nat * F32.t)),
+      encode_nat p A junk text = Ok sq /\ length sq = length text /\
+      e2e_scan A C p junk text be old pssm am thr B = Ok H /\ NoDup (map fst H) /\
+      (forall i x, In (i, x) H ->
+         i + M <= length sq /\ clean K M sq i = true /\
+         exists s, score_c01 K S (window M i sq) = Some s /\ (tq - eps <= s)%Q /\
+                   (tail_c01 K S bg (s + eps + d) <= pv)%Q) /\
+      (forall i, i + M <= length sq -> (forall x, ~ In (i, x) H) ->
+         clean K M sq i = false \/
+         exists s, score_c01 K S (window M i sq) = Some s /\ (s < tq + eps)%Q /\
+                   ((s < tq - d)%Q -> (pv <= tail_c01 K S bg (s - d))%Q)).
+Proof. exact text_threshold_tfm_wild. Qed.
+
+(* Scanner::max() and significance: on a wildcard-free text the best hit (q, x) returned by max() -- any arm, any
+   block size, fresh scanner -- has an exact score s within eps_f32 of x, and NO valid position has an exact score
+   above s + 2 eps_f32; hence its exact tail probability, at slack 2 eps_f32, is the smallest of all positions:
+   the best hit is the most significant position up to the binary32 summation error (e2e_max + C01's error
+   bound + monotonicity of the exact tail). *)
+Theorem stat_max_most_significant (A : EM.abc) (C : nat) (p : EI.pipeline) (junk : nat -> EM.sym) (text : list byte)
+      (be : SA.backend) (old : SM.sseq) (pssm : list (list F32.t)) (am : arm) (thr : F32.t) (B : nat) (bg : list Q) :
+  A = GA.dna \/ A = GA.protein ->
+  1 <= C -> SA.backend_typed C be = true -> SS.wf_matrix C (SM.mat old) ->
+  Forall (no_wild A) text ->
+  1 <= length pssm -> Forall (fun row : list F32.t => length row = EM.a_K A) pssm ->
+  e2e_wc (EM.a_K A) pssm = true -> no_overflow (EM.a_K A) pssm = true -> 1 <= B ->
+  length bg = EM.a_K A -> (last bg 0 == 0)%Q -> (forall b, In b bg -> (0 <= b)%Q) ->
+  let K := EM.a_K A in
+  let S := qmat pssm in
+  let M := length pssm in
+  let eps := eps_f32 K pssm in
+  exists (sq : list nat) (r : option (nat * F32.t)),
+    encode_nat p A junk text = Ok sq /\
+    e2e_scan_max A C p junk text be old pssm am thr B = Ok r /\
+    forall q x, r = Some (q, x) ->
+      q + M <= length sq /\
+      exists s, score_c01 K S (window M q sq) = Some s /\ (Qabs (valQ x - s) <= eps)%Q /\
+        forall j, j + M <= length sq ->
+          exists sj, score_c01 K S (window M j sq) = Some sj /\ (sj <= s + 2 * eps)%Q /\
+                     (tail_c01 K S bg (s + 2 * eps) <= tail_c01 K S bg sj)%Q.
+Proof. exact (text_max_significant A C p junk text be old pssm am thr B bg). Qed.
 
 (* ================= (3) reverse complement ================= *)
 
@@ -401,32 +549,83 @@ Qed.
 
 (* ================= (4) counts through a file ================= *)
 
-(* A DNA count matrix (M >= 1 rows of 5 counts <= u32::MAX) printed as a JASPAR 2016 record with any
-   admissible layout, identifier and description, preceded by any bytes without '>' and followed by
+(* A count matrix over DNA or protein (M >= 1 rows of K counts <= u32::MAX) printed as a JASPAR 2016
+   record -- one line per symbol, the symbol's letter taken from io's GENERATED from_ascii table -- with
+   any admissible layout, identifier and description, preceded by any bytes without '>' and followed by
    white space, read through ANY chunking with ANY buffer capacities by the reader model of coq/io
    (C14's round-trip theorem): exactly one record, whose matrix IS the count matrix (io's rmatrix and
-   pwm's cmatrix are the same type: no conversion), then End.  Hence every result of the pipeline
-   (conversion chain, both p-value methods, thresholds) is the same for the file as for the counts. *)
+   pwm's cmatrix are the same type: no conversion), then End. *)
 Theorem stat_io_roundtrip :
-  forall (y : LMIo.IoPrint.style) (id : list N) (desc : option (list N)) (counts : list (list N))
+  forall (A : LMIo.IoJaspar.alphabet) (syms : list N)
+         (y : LMIo.IoPrint.style) (id : list N) (desc : option (list N)) (counts : list (list N))
          (caps : nat -> nat) (prefix suffix : list N) (s : LMIo.IoBase.stream),
+    (A = LMIo.IoJaspar.Dna /\ syms = dna_letters) \/ (A = LMIo.IoJaspar.Protein /\ syms = protein_letters) ->
     LMIo.IoPrint.wf_style y = true -> LMIo.IoPrint.wf_id id = true -> LMIo.IoPrint.wf_desc desc = true ->
-    counts_ok counts ->
+    counts_ok A counts ->
     LMIo.IoPrint.wf_prefix prefix = true -> LMIo.IoPrint.wf_suffix suffix = true -> LMIo.IoBase.wf_stream s ->
     LMIo.IoBase.stream_bytes s =
-      LMIo.IoPrint.print_file LMIo.IoPrint.print_jaspar16 prefix [(y, src_of id desc counts)] suffix ->
+      LMIo.IoPrint.print_file LMIo.IoPrint.print_jaspar16 prefix [(y, src_of A syms id desc counts)] suffix ->
     exists r,
-      LMIo.IoJaspar.jaspar16_read LMIo.IoJaspar.Dna caps s = [Ok (Some r); Ok None] /\
+      LMIo.IoJaspar.jaspar16_read A caps s = [Ok (Some r); Ok None] /\
       LMIo.IoJaspar.rmatrix r = counts /\ LMIo.IoJaspar.rid r = id /\ LMIo.IoJaspar.rdesc r = desc /\
-      count_new (LMIo.IoJaspar.rmatrix r) = count_new counts /\
-      forall (flog2 flog10 fln : xq -> xq) (pseudo bg : list Qc),
-        sm flog2 flog10 fln pseudo bg (LMIo.IoJaspar.rmatrix r) = sm flog2 flog10 fln pseudo bg counts.
+      count_new (LMIo.IoJaspar.rmatrix r) = count_new counts.
 Proof.
-  intros y id desc counts caps prefix suffix s Hy Hid Hdesc Hok Hpre Hsuf Hs Hbytes.
-  destruct (counts_roundtrip y id desc counts caps prefix suffix s Hy Hid Hdesc Hok Hpre Hsuf Hs Hbytes)
+  intros A syms y id desc counts caps prefix suffix s HA Hy Hid Hdesc Hok Hpre Hsuf Hs Hbytes.
+  assert (Hl : letters_ok A syms = true /\ LMIo.IoMatrixProofs.wf_alphabet A).
+  { destruct HA as [(-> & ->)|(-> & ->)];
+      [exact (conj letters_ok_dna (proj1 LMIo.C14io.alphabets_wf))|exact (conj letters_ok_protein (proj2 LMIo.C14io.alphabets_wf))]. }
+  destruct Hl as (Hl & Hwf).
+  destruct (counts_roundtrip A syms Hl Hwf y id desc counts caps prefix suffix s Hy Hid Hdesc Hok Hpre Hsuf Hs Hbytes)
     as (r & Hr & Hm & Hi & Hd).
-  exists r. split; [exact Hr|]. split; [exact Hm|]. split; [exact Hi|]. split; [exact Hd|].
-  rewrite Hm. split; [reflexivity|]. intros. reflexivity.
+  exists r. split; [exact Hr|]. split; [exact Hm|]. split; [exact Hi|]. split; [exact Hd|]. now rewrite Hm.
+Qed.
+
+(* FILE -> STATISTICS.  The motif pipeline (stat_motif_pipeline) on the record read from such a file: for
+   pseudocounts / background as there, the scoring matrix built from the LOADED matrix has one exact tail in
+   the three models, the MEME-style table exists, and its p-values bracket that tail. *)
+Theorem stat_file_pipeline :
+  forall (flog2 flog10 fln : xq -> xq) (A : LMIo.IoJaspar.alphabet) (syms : list N) (pseudo bg : list Qc)
+         (y : LMIo.IoPrint.style) (id : list N) (desc : option (list N)) (counts : list (list N))
+         (caps : nat -> nat) (prefix suffix : list N) (s : LMIo.IoBase.stream),
+    (A = LMIo.IoJaspar.Dna /\ syms = dna_letters) \/ (A = LMIo.IoJaspar.Protein /\ syms = protein_letters) ->
+    LMIo.IoPrint.wf_style y = true -> LMIo.IoPrint.wf_id id = true -> LMIo.IoPrint.wf_desc desc = true ->
+    counts_ok A counts -> 2 <= length counts -> (Z.of_nat (length counts) * 1000 < DMo.i32_max)%Z ->
+    LMIo.IoPrint.wf_prefix prefix = true -> LMIo.IoPrint.wf_suffix suffix = true -> LMIo.IoBase.wf_stream s ->
+    LMIo.IoBase.stream_bytes s =
+      LMIo.IoPrint.print_file LMIo.IoPrint.print_jaspar16 prefix [(y, src_of A syms id desc counts)] suffix ->
+    let K := LMIo.IoJaspar.aK A in
+    flog2 (Some 0%Qc) = None -> (forall x : Qc, (0 < x)%Qc -> flog2 (Some x) <> None) ->
+    length pseudo = K -> length bg = K ->
+    Forall (fun p => (0 <= p)%Qc) pseudo -> (forall k, k < K - 1 -> (0 < nth k pseudo 0)%Qc) ->
+    Forall (fun f => (Q2Qc 0 <= f)%Qc /\ (f <= Q2Qc 1)%Qc) bg -> Qcsum bg = Q2Qc 1 ->
+    (forall k, k < K - 1 -> (0 < nth k bg 0)%Qc) -> nth (K - 1) bg 0%Qc = 0%Qc ->
+    exists r,
+      LMIo.IoJaspar.jaspar16_read A caps s = [Ok (Some r); Ok None] /\
+      let S := sm flog2 flog10 fln pseudo bg (LMIo.IoJaspar.rmatrix r) in
+      let B := bgQ bg in
+      let T := tail_c01 K S B in
+      let M := inject_Z (Z.of_nat (length (LMIo.IoJaspar.rmatrix r))) in
+      length S = length counts /\
+      (forall t, (T t == DI.tail_exact (dmat S) B t)%Q /\ (T t == TL.Ptail (trows S) B t)%Q) /\
+      (exists d offset scale, DMo.build DI.QOps (dmat S) B = Ok d /\ DMo.stage_a DI.QOps (dmat S) = Ok (offset, scale)) /\
+      (forall d offset scale x p,
+         DMo.build DI.QOps (dmat S) B = Ok d -> DMo.stage_a DI.QOps (dmat S) = Ok (offset, scale) ->
+         DMo.d_pvalue DI.QOps d x = Ok p ->
+         (T (x + (M / 2 + 1) / scale) <= p)%Q /\ (p <= T (x - (M / 2 + 1) / scale))%Q).
+Proof.
+  intros f2 f10 fl A syms pseudo bg y id desc counts caps prefix suffix s HA Hy Hid Hdesc Hok HM Hlen Hpre Hsuf Hs Hbytes
+         K H0 Hpos Hp Hb Hps Hpp Hrange Hsum Hbpos Hwild.
+  destruct (stat_io_roundtrip A syms y id desc counts caps prefix suffix s HA Hy Hid Hdesc Hok Hpre Hsuf Hs Hbytes)
+    as (r & Hr & Hm & _).
+  exists r. split; [exact Hr|]. rewrite Hm.
+  assert (HK : 2 <= K) by (destruct HA as [(-> & _)|(-> & _)]; cbv; lia).
+  assert (Hc : Forall (fun row : list N => length row = K) counts).
+  { destruct Hok as (_ & Hrows). eapply Forall_impl; [|exact Hrows]. intros row (E & _). exact E. }
+  destruct (stat_motif_pipeline f2 f10 fl K pseudo bg counts H0 Hpos HK Hp Hb Hc Hps Hpp Hrange Hsum Hbpos Hwild HM Hlen)
+    as ((Hl & _) & (_ & _ & _ & Hbuild) & Htails & Hbr).
+  cbv zeta. split; [exact Hl|]. split; [exact Htails|]. split; [exact Hbuild|].
+  intros d offset scale x p Hd Hsa Hpv. destruct (Hbr d offset scale x p Hd Hsa Hpv) as (B1 & B2 & _).
+  split; [exact B1|exact B2].
 Qed.
 
 (* the decimal printer used for the counts is inverted by the readers' digit-string value *)
@@ -537,7 +736,7 @@ Example stat_example_revcomp :
 Proof. vm_compute. repeat split; reflexivity. Qed.
 
 (* a threshold from a p-value on the example: ScoreDistribution::score(1/4) = 0.502 (one table step
-   above 1/2), and T(t + dd) = 3/16 <= 1/4 as stat_threshold_scan_meme_partial uses it *)
+   above 1/2), and T(t + dd) = 3/16 <= 1/4 as stat_threshold_scan_meme_link uses it *)
 Example stat_example_threshold :
   match DMo.build DI.QOps (dmat StatEx.S) StatEx.B with
   | Ok d => match DMo.d_score DI.QOps d (1 # 4) with
@@ -548,6 +747,13 @@ Example stat_example_threshold :
   end.
 Proof. vm_compute. split; reflexivity. Qed.
 
+(* on the example: score(1/4) = 251/500 is not the table start (3 * -1), and the exact tail at
+   251/500 - 1/500 - 1/200 is 5/16 >= 1/4 (while T(251/500 + 1/200) = 3/16 <= 1/4: stat_example_threshold) *)
+Example stat_example_minimal :
+  Qred (tail_c01 5 StatEx.S StatEx.B ((251 # 500) - 1 / 500 - (inject_Z 3 / 2 + 1) / 500)) = (5 # 16)%Q /\
+  ~ ((251 # 500) == inject_Z 3 * (-1))%Q.
+Proof. split; [vm_compute; reflexivity|vm_compute; discriminate]. Qed.
+
 (* the example counts as a JASPAR 2016 file ("# x", then ">m1" and five symbol lines), split into
    chunks of uneven sizes and read with a 7-byte buffer: one record with the counts, then End *)
 Module IoEx.
@@ -557,12 +763,12 @@ Module IoEx.
        LMIo.IoPrint.y_post := []; LMIo.IoPrint.y_gap := 0 |}.
   Definition id : list N := [109; 49]%N.
   Definition bytes : list N :=
-    LMIo.IoPrint.print_file LMIo.IoPrint.print_jaspar16 [35; 32; 120; 10]%N [(y, src_of id None StatEx.counts)] [10%N].
+    LMIo.IoPrint.print_file LMIo.IoPrint.print_jaspar16 [35; 32; 120; 10]%N [(y, src_of LMIo.IoJaspar.Dna dna_letters id None StatEx.counts)] [10%N].
   Definition chunks : LMIo.IoBase.stream := [firstn 5 bytes; firstn 17 (skipn 5 bytes); skipn 22 bytes].
 End IoEx.
 
 Example stat_example_io :
-  counts_ok StatEx.counts /\ LMIo.IoPrint.wf_style IoEx.y = true /\ LMIo.IoPrint.wf_id IoEx.id = true /\
+  counts_ok LMIo.IoJaspar.Dna StatEx.counts /\ LMIo.IoPrint.wf_style IoEx.y = true /\ LMIo.IoPrint.wf_id IoEx.id = true /\
   LMIo.IoBase.stream_bytes IoEx.chunks = IoEx.bytes /\
   match LMIo.IoJaspar.jaspar16_read LMIo.IoJaspar.Dna (fun _ => 7) IoEx.chunks with
   | [Ok (Some r); Ok None] => LMIo.IoJaspar.rmatrix r = StatEx.counts /\ LMIo.IoJaspar.rid r = IoEx.id
@@ -573,5 +779,231 @@ Proof.
   { split; [cbn; lia|]. unfold StatEx.counts.
     repeat (constructor; [split; [reflexivity|repeat (constructor; [vm_compute; discriminate|]); constructor]|]).
     constructor. }
+  vm_compute. repeat split; reflexivity.
+Qed.
+
+(* the same over the PROTEIN alphabet (21 symbol lines, letters A C D E F G H I K L M N P Q R S T V W Y X from
+   the generated table): two rows of 21 counts, CRLF layout, 5-byte buffer *)
+Module IoExP.
+  Definition counts : list (list N) :=
+    [map N.of_nat (seq 1 21); map (fun k => (4294967295 - N.of_nat k)%N) (seq 0 21)].
+  Definition y : LMIo.IoPrint.style :=
+    {| LMIo.IoPrint.y_crlf := true; LMIo.IoPrint.y_hsep := [9%N]; LMIo.IoPrint.y_lead := [];
+       LMIo.IoPrint.y_sep := [32%N]; LMIo.IoPrint.y_sym := [9%N]; LMIo.IoPrint.y_tail := [];
+       LMIo.IoPrint.y_post := [32%N]; LMIo.IoPrint.y_gap := 1 |}.
+  Definition bytes : list N :=
+    LMIo.IoPrint.print_file LMIo.IoPrint.print_jaspar16 [] [(y, src_of LMIo.IoJaspar.Protein protein_letters IoEx.id (Some [112%N]) counts)] [].
+  Definition chunks : LMIo.IoBase.stream := [firstn 40 bytes; firstn 1 (skipn 40 bytes); skipn 41 bytes].
+End IoExP.
+
+Example stat_example_io_protein :
+  protein_letters = [65; 67; 68; 69; 70; 71; 72; 73; 75; 76; 77; 78; 80; 81; 82; 83; 84; 86; 87; 89; 88]%N /\
+  dna_letters = [65; 67; 84; 71; 78]%N /\
+  counts_ok LMIo.IoJaspar.Protein IoExP.counts /\ LMIo.IoPrint.wf_style IoExP.y = true /\
+  LMIo.IoBase.stream_bytes IoExP.chunks = IoExP.bytes /\
+  exists r, LMIo.IoJaspar.jaspar16_read LMIo.IoJaspar.Protein (fun _ => 5) IoExP.chunks = [Ok (Some r); Ok None] /\
+            LMIo.IoJaspar.rmatrix r = IoExP.counts /\ LMIo.IoJaspar.rdesc r = Some [112%N].
+Proof.
+  split; [vm_compute; reflexivity|]. split; [vm_compute; reflexivity|]. split.
+  { apply counts_okb_sound. vm_compute. reflexivity. }
+  split; [vm_compute; reflexivity|]. split; [vm_compute; reflexivity|].
+  eexists. split; [vm_compute; reflexivity|]. split; vm_compute; reflexivity.
+Qed.
+
+(* ---------- non-vacuity of stat_threshold_scan_meme: binary32 matrix, text, scanner ---------- *)
+
+(* the example matrix as the binary32 ScoringMatrix (1.0, 0.0, -0.5, 0.5, -inf), a 12-letter text without N,
+   the threshold 0.502f32 (the nearest binary32 number to score(1/4) = 251/500) *)
+Module FEx.
+  Definition pssm : list (list F32.t) := map (map F32.of_bits)
+    [[1065353216; 0; 3204448256; 3204448256; 4286578688];
+     [3204448256; 1056964608; 0; 0; 4286578688];
+     [0; 0; 0; 0; 4286578688]]%Z.
+  Definition text : list byte := [x41; x43; x47; x54; x41; x43; x43; x41; x41; x43; x54; x41].   (* ACGTACCAACTA *)
+  Definition thr : F32.t := F32.of_bits 1056998162.
+  Definition eta : Q := 1 # 10000000.
+  Definition junk : nat -> EM.sym := fun _ => 0%N.
+  Definition enc : EI.pipeline := EI.PDispatch EM.DAvx2.
+  Definition be : SA.backend := SA.BDispatch LMStripe.NetModel.AAvx2.
+  Definition scan (am : arm) (B : nat) := e2e_scan GA.dna 32 enc junk text be SM.s_default pssm am thr B.
+End FEx.
+
+(* the binary32 matrix read as rationals IS the example's exact matrix; every hypothesis of
+   stat_threshold_scan_meme holds (with p = 1/4, tq = 251/500, eta = 1e-7) *)
+Example stat_example_float_hypotheses :
+  map (map StatEx.qr) (qmat FEx.pssm) = map (map StatEx.qr) StatEx.S /\
+  (GA.dna = GA.dna \/ GA.dna = GA.protein) /\ SA.backend_typed 32 FEx.be = true /\
+  SS.wf_matrix 32 (SM.mat SM.s_default) /\ Forall (no_wild GA.dna) FEx.text /\
+  Forall (fun row : list F32.t => length row = EM.a_K GA.dna) FEx.pssm /\
+  e2e_wc (EM.a_K GA.dna) FEx.pssm = true /\ no_overflow (EM.a_K GA.dna) FEx.pssm = true /\
+  F32.is_finite FEx.thr = true /\
+  Qred (eps_f32 5 FEx.pssm) = (9 # 16777216)%Q /\
+  DT.bg_nonneg StatEx.B /\ (DI.Qsum StatEx.B <= 1)%Q /\ (last StatEx.B 0 == 0)%Q /\
+  DMo.stage_a DI.QOps (dmat (qmat FEx.pssm)) = Ok ((-1)%Q, 500%Q) /\
+  on_ok (DMo.build DI.QOps (dmat (qmat FEx.pssm)) StatEx.B) (fun d =>
+    on_ok (DMo.d_score DI.QOps d (1 # 4)) (fun t =>
+      Qred t = (251 # 500)%Q /\ Qle_bool (Qabs (valQ FEx.thr - t)) FEx.eta = true)).
+Proof.
+  split; [vm_compute; reflexivity|]. split; [now left|]. split; [reflexivity|]. split; [constructor|]. split.
+  { unfold FEx.text, no_wild. repeat (constructor; [cbn; auto 10|]). constructor. }
+  split; [unfold FEx.pssm; cbn [map]; repeat (constructor; [reflexivity|]); constructor|].
+  split; [vm_compute; reflexivity|]. split; [vm_compute; reflexivity|]. split; [reflexivity|].
+  split; [vm_compute; reflexivity|].
+  split; [unfold DT.bg_nonneg; repeat (constructor; [vm_compute; discriminate|]); constructor|].
+  split; [vm_compute; discriminate|]. split; [reflexivity|].
+  split; [vm_compute; reflexivity|]. vm_compute. split; reflexivity.
+Qed.
+
+
+(* hence its conclusion on the example, for every dispatcher arm and block size (eps = 9/2^24 + 1e-7,
+   dd = (3/2 + 1)/500): hits have exact score >= tq - eps and exact tail <= 1/4 at s + eps + dd *)
+Example stat_example_float_scan :
+  forall (am : arm) (B : nat), 1 <= B ->
+  exists (tq : Q) (sq : list nat) (H : list (nat * F32.t)),
+    Qred tq = (251 # 500)%Q /\
+    encode_nat FEx.enc GA.dna FEx.junk FEx.text = Ok sq /\ FEx.scan am B = Ok H /\ NoDup (map fst H) /\
+    (forall i x, In (i, x) H ->
+       i + 3 <= length sq /\
+       exists s, score_c01 5 (qmat FEx.pssm) (window 3 i sq) = Some s /\
+                 (tq - (eps_f32 5 FEx.pssm + FEx.eta) <= s)%Q /\
+                 (tail_c01 5 (qmat FEx.pssm) StatEx.B (s + (eps_f32 5 FEx.pssm + FEx.eta) + (inject_Z 3 / 2 + 1) / 500) <= 1 # 4)%Q) /\
+    (forall i, i + 3 <= length sq -> (forall x, ~ In (i, x) H) ->
+       exists s, score_c01 5 (qmat FEx.pssm) (window 3 i sq) = Some s /\ (s < tq + (eps_f32 5 FEx.pssm + FEx.eta))%Q).
+Proof.
+  intros am B HB.
+  destruct stat_example_float_hypotheses
+    as (_ & HA & Hbe & Hold & Htext & Hrows & Hwc & Hno & Hthr & _ & Hnn & Hle & Hlast & Hs & Hm).
+  destruct (on_ok_inv _ _ Hm) as (d & Hd & Hm2). destruct (on_ok_inv _ _ Hm2) as (tq & Ht & Htq & Heta). apply Qle_bool_iff in Heta.
+  destruct (stat_threshold_scan_meme GA.dna 32 FEx.enc FEx.junk FEx.text FEx.be SM.s_default FEx.pssm am FEx.thr B
+              StatEx.B d (-1)%Q 500%Q (1 # 4)%Q tq FEx.eta HA ltac:(lia) Hbe Hold Htext ltac:(cbn; lia) Hrows
+              Hwc Hno HB Hthr Heta eq_refl Hlast Hnn Hle Hd Hs ltac:(vm_compute; reflexivity) eq_refl eq_refl Ht)
+    as (sq & H & H1 & _ & H3 & H4 & H5 & H6 & _).
+  exists tq, sq, H. split; [exact Htq|]. split; [exact H1|]. split; [exact H3|]. split; [exact H4|]. split; [exact H5|exact H6].
+Qed.
+
+(* what the models compute there (AVX2 arm, block size 256, and generic arm, block size 1): the hits are the
+   three windows scoring 1.5 (ACG, ACC, ACT); the exact scores of all ten windows; the exact tails at the
+   hits' scores are 1/16 <= 1/4, the best rejected windows score 1/2 (tail 5/16 > 1/4) *)
+Example stat_example_float_runs :
+  match FEx.scan Avx2 256 with Ok l => map (fun h => (fst h, F32.to_bits (snd h))) l | _ => [] end
+    = [(8, 1069547520%Z); (4, 1069547520%Z); (0, 1069547520%Z)] /\
+  match FEx.scan Generic 1 with Ok l => map fst l | _ => [] end = [8; 4; 0] /\
+  encode_nat FEx.enc GA.dna FEx.junk FEx.text = Ok [0; 1; 3; 2; 0; 1; 1; 0; 0; 1; 2; 0] /\
+  map (fun i => StatEx.qr (score_c01 5 (qmat FEx.pssm) (window 3 i [0; 1; 3; 2; 0; 1; 1; 0; 0; 1; 2; 0]))) (seq 0 10)
+    = [Some (3 # 2); Some 0; Some (-1 # 2); Some (-1); Some (3 # 2); Some (1 # 2); Some (-1 # 2); Some (1 # 2); Some (3 # 2); Some 0]%Q /\
+  map (fun t => Qred (tail_c01 5 (qmat FEx.pssm) StatEx.B t)) [3 # 2; 1 # 2]%Q = [1 # 16; 5 # 16]%Q.
+Proof. vm_compute. repeat split; reflexivity. Qed.
+
+(* ---------- non-vacuity of stat_threshold_scan_tfm: the same matrix and text, threshold = the score of
+   approximate_score(1/4) = 1.0 (representable: eta = 0), granularity 1/10, d = (3 + 2)/10 ---------- *)
+Module FExT.
+  Definition thr : F32.t := F32.of_bits 1065353216.      (* 1.0 *)
+  Definition perm : list nat := [0; 1; 2].
+  Definition scan (am : arm) (B : nat) := e2e_scan GA.dna 32 FEx.enc FEx.junk FEx.text FEx.be SM.s_default FEx.pssm am thr B.
+End FExT.
+
+Example stat_example_float_tfm_hypotheses :
+  TP.matrix_ok 5 (trows (qmat FEx.pssm)) StatEx.B /\ Permutation FExT.perm (seq 0 (length FEx.pssm)) /\
+  F32.is_finite FExT.thr = true /\
+  on_ok (TM.score_window0 LMTfm.TfmNum.NumQ (trows (qmat FEx.pssm)) FExT.perm) (fun win =>
+    first_ok (TM.sc_run LMTfm.TfmNum.NumQ 4 (trows (qmat FEx.pssm)) FExT.perm StatEx.B (1 # 4) (1 # 10) win) (fun it =>
+      Qred (TM.io_score it) = 1%Q /\ Qred (TM.io_gran it) = (1 # 10)%Q /\
+      Qle_bool (Qabs (valQ FExT.thr - TM.io_score it)) 0 = true)).
+Proof.
+  split.
+  { unfold TP.matrix_ok. split; [lia|]. split; [vm_compute; repeat constructor|]. split; [reflexivity|]. split.
+    { intros b Hb. cbn in Hb. repeat (destruct Hb as [<-|Hb]; [vm_compute; discriminate|]). contradiction. }
+    split; [vm_compute; reflexivity|reflexivity]. }
+  split; [apply Permutation_refl|]. split; [reflexivity|].
+  vm_compute. repeat split; reflexivity.
+Qed.
+
+(* hence its conclusion for every arm and block size; and what the models compute: the same three hits; the
+   rejected windows score 1/2, 0, -1/2, -1; those more than d = 1/2 under the threshold (0, -1/2, -1) have
+   exact tail T(s - 1/2) >= 1/4 (7/8, 1, 1) *)
+Example stat_example_float_tfm_scan :
+  forall (am : arm) (B : nat), 1 <= B ->
+  exists (tq g : Q) (sq : list nat) (H : list (nat * F32.t)),
+    Qred tq = 1%Q /\ Qred g = (1 # 10)%Q /\
+    encode_nat FEx.enc GA.dna FEx.junk FEx.text = Ok sq /\ FExT.scan am B = Ok H /\
+    (forall i x, In (i, x) H ->
+       exists s, score_c01 5 (qmat FEx.pssm) (window 3 i sq) = Some s /\
+                 (tq - (eps_f32 5 FEx.pssm + 0) <= s)%Q /\
+                 (tail_c01 5 (qmat FEx.pssm) StatEx.B (s + (eps_f32 5 FEx.pssm + 0) + (inject_Z 3 + 2) * g) <= 1 # 4)%Q) /\
+    (forall i, i + 3 <= length sq -> (forall x, ~ In (i, x) H) ->
+       exists s, score_c01 5 (qmat FEx.pssm) (window 3 i sq) = Some s /\ (s < tq + (eps_f32 5 FEx.pssm + 0))%Q /\
+                 ((s < tq - (inject_Z 3 + 2) * g)%Q -> (1 # 4 <= tail_c01 5 (qmat FEx.pssm) StatEx.B (s - (inject_Z 3 + 2) * g))%Q)).
+Proof.
+  intros am B HB.
+  destruct stat_example_float_hypotheses as (_ & HA & Hbe & Hold & Htext & Hrows & Hwc & Hno & _).
+  destruct stat_example_float_tfm_hypotheses as (Hok & Hperm & Hthr & Hm).
+  destruct (on_ok_inv _ _ Hm) as (win & Hwin & Hf).
+  destruct (first_ok_inv _ _ Hf) as (it & Hin & Htq & Hg & Heta). apply Qle_bool_iff in Heta.
+  destruct (stat_threshold_scan_tfm GA.dna 32 FEx.enc FEx.junk FEx.text FEx.be SM.s_default FEx.pssm am FExT.thr B
+              StatEx.B FExT.perm (1 # 4)%Q 4 win it 0%Q HA ltac:(lia) Hbe Hold Htext ltac:(cbn; lia) Hrows Hwc Hno HB
+              Hok Hperm eq_refl ltac:(discriminate) Hwin Hin Hthr Heta)
+    as (sq & H & H1 & _ & H3 & _ & H5 & H6).
+  exists (TM.io_score it), (TM.io_gran it), sq, H.
+  split; [exact Htq|]. split; [exact Hg|]. split; [exact H1|]. split; [exact H3|]. split.
+  - intros i x Hi. exact (proj2 (H5 i x Hi)).
+  - exact H6.
+Qed.
+
+Example stat_example_float_tfm_runs :
+  match FExT.scan Avx2 256 with Ok l => map (fun h => (fst h, F32.to_bits (snd h))) l | _ => [] end
+    = [(8, 1069547520%Z); (4, 1069547520%Z); (0, 1069547520%Z)] /\
+  map (fun s => Qred (tail_c01 5 (qmat FEx.pssm) StatEx.B (s - (1 # 2)))) [0; -1 # 2; -1]%Q = [7 # 8; 1; 1]%Q /\
+  Qred (tail_c01 5 (qmat FEx.pssm) StatEx.B ((3 # 2) + (9 # 16777216) + (1 # 2))) = 0%Q.
+Proof. vm_compute. repeat split; reflexivity. Qed.
+
+(* max() on the example (threshold 0.502f32): the last of the three windows scoring 1.5 (ties: largest index);
+   stat_max_most_significant applies (hypotheses: stat_example_float_hypotheses) and says that no window scores
+   above 3/2 + 2 * 9/2^24: indeed the exact scores are 3/2, 1/2, 0, -1/2, -1 (stat_example_float_runs) *)
+Example stat_example_float_max :
+  (forall am B, 1 <= B ->
+     exists sq r, encode_nat FEx.enc GA.dna FEx.junk FEx.text = Ok sq /\
+       e2e_scan_max GA.dna 32 FEx.enc FEx.junk FEx.text FEx.be SM.s_default FEx.pssm am FEx.thr B = Ok r /\
+       forall q x, r = Some (q, x) ->
+         exists s, score_c01 5 (qmat FEx.pssm) (window 3 q sq) = Some s /\
+           forall j, j + 3 <= length sq ->
+             exists sj, score_c01 5 (qmat FEx.pssm) (window 3 j sq) = Some sj /\ (sj <= s + 2 * eps_f32 5 FEx.pssm)%Q) /\
+  option_map (fun h : nat * F32.t => (fst h, F32.to_bits (snd h)))
+    (match e2e_scan_max GA.dna 32 FEx.enc FEx.junk FEx.text FEx.be SM.s_default FEx.pssm Avx2 FEx.thr 256 with
+     | Ok r => r | _ => None end) = Some (8, 1069547520%Z).
+Proof.
+  split; [|vm_compute; reflexivity].
+  intros am B HB.
+  destruct stat_example_float_hypotheses as (_ & HA & Hbe & Hold & Htext & Hrows & Hwc & Hno & _ & _ & Hnn & _ & Hlast & _).
+  assert (Hnn' : forall b, In b StatEx.B -> (0 <= b)%Q)
+    by (intros b Hb; unfold DT.bg_nonneg in Hnn; rewrite Forall_forall in Hnn; auto).
+  destruct (stat_max_most_significant GA.dna 32 FEx.enc FEx.junk FEx.text FEx.be SM.s_default FEx.pssm am FEx.thr B
+              StatEx.B HA ltac:(lia) Hbe Hold Htext ltac:(cbn; lia) Hrows Hwc Hno HB eq_refl Hlast Hnn')
+    as (sq & r & H1 & H2 & H3).
+  exists sq, r. split; [exact H1|]. split; [exact H2|].
+  intros q x Er. destruct (H3 q x Er) as (_ & s & Es & _ & Hall).
+  exists s. split; [exact Es|]. intros j Hj. destruct (Hall j Hj) as (sj & Esj & Hle & _). exists sj. auto.
+Qed.
+
+(* wildcards on the example: the text ACGNACCAACTA; the windows at 1, 2, 3 contain the N and are not hits, the
+   others are judged as before (hits 0, 4, 8); every hypothesis of stat_threshold_scan_wildcards holds *)
+Module FExW.
+  Definition text : list byte := [x41; x43; x47; x4e; x41; x43; x43; x41; x41; x43; x54; x41].   (* ACGNACCAACTA *)
+  Definition scan (am : arm) (B : nat) := e2e_scan GA.dna 32 FEx.enc FEx.junk text FEx.be SM.s_default FEx.pssm am FEx.thr B.
+End FExW.
+
+Example stat_example_wildcards :
+  wild_ninf 5 FEx.pssm /\ Forall (LMEncode.EncodeProofs.in_abc GA.dna) FExW.text /\
+  Qle_bool (tail_c01 5 (qmat FEx.pssm) StatEx.B ((251 # 500) + (inject_Z 3 / 2 + 1) / 500)) (1 # 4) = true /\
+  Qle_bool (Qabs (valQ FEx.thr - (251 # 500))) FEx.eta = true /\
+  encode_nat FEx.enc GA.dna FEx.junk FExW.text = Ok [0; 1; 3; 4; 0; 1; 1; 0; 0; 1; 2; 0] /\
+  map (clean 5 3 [0; 1; 3; 4; 0; 1; 1; 0; 0; 1; 2; 0]) (seq 0 10)
+    = [true; false; false; false; true; true; true; true; true; true] /\
+  match FExW.scan Avx2 256 with Ok l => map (fun h => (fst h, F32.to_bits (snd h))) l | _ => [] end
+    = [(8, 1069547520%Z); (4, 1069547520%Z); (0, 1069547520%Z)] /\
+  map (fun i => F32.to_bits (SCO.score_def F32.add F32.zero 4 FEx.pssm [0; 1; 3; 4; 0; 1; 1; 0; 0; 1; 2; 0] i)) [1; 2; 3]
+    = [4286578688; 4286578688; 4286578688]%Z.
+Proof.
+  split; [unfold wild_ninf, FEx.pssm; cbn [map]; repeat (constructor; [reflexivity|]); constructor|].
+  split; [unfold FExW.text, LMEncode.EncodeProofs.in_abc; repeat (constructor; [cbn; auto 10|]); constructor|].
   vm_compute. repeat split; reflexivity.
 Qed.
